@@ -205,7 +205,8 @@ def run(ctx: Ctx, tier: str) -> Result:
         if r.kind == "return" and isinstance(r.result, ast.Tuple) and isinstance(r.result.elts[0], ast.Subscript):
             sl = r.result.elts[0]
             if norm(sl.value) == fnp and isinstance(sl.slice, ast.Slice) and sl.slice.upper is None and sl.slice.lower is not None \
-                    and norm(sl.slice.lower).startswith("len(") and "is_app_frame(%s)[1]" % fnp in norm(sl.slice.lower):
+                    and isinstance(sl.slice.lower, ast.Call) and norm(sl.slice.lower.func) == "len" \
+                    and "is_app_frame(%s)[1]" % fnp in norm(sl.slice.lower):
                 good = True
     if good:
         res.ok("C19.FRAME", {"short path": "filename[len(matched prefix):]"})
